@@ -32,7 +32,9 @@ var targetFile = map[string]string{
 	"validateRelayMaxTimeout": "GenTTL",
 	"lazyCallReqTTL":          "GenTTL",
 	// C08
-	"lazyTTL": "GenRelayFwd",
+	"lazyTTL":      "GenRelayFwd",
+	"dcsSucceeded": "GenFrame",
+	"dcsFailMsg":   "GenFrame",
 }
 
 // varFields: constant fields of package-level composite-literal variables.
@@ -171,4 +173,12 @@ var targets = []Target{
 		SHints: map[string]string{"logger.WithFields(...": ""}},
 	{Func: "lazyCallReq.TTL", Out: "lazyTTL", File: "GenRelayFwd", Params: "(ttl_ms : Z)", Ret: "Z",
 		SHints: map[string]string{"ttl := binary.BigEndian.Uint32(f.Payload[_ttlIndex : _ttlIndex+_ttlLen])": "let ttl := ttl_ms in"}},
+	// relay.go: determinesCallSuccess (C09/C10): (succeeded, failMsg) of a frame forwarded to the caller side;
+	// errKey stands for newLazyError(f).Code().MetricsKey() of an error frame
+	{Func: "determinesCallSuccess", Out: "dcsSucceeded", Params: "(mt : Z) (resCode : Z) (errKey : list Z)", Ret: "bool", RetIdx: 0,
+		Hints:  map[string]string{"f.messageType()": "mt", "isCallResOK(f)": "(isCallResOK resCode)"},
+		SHints: map[string]string{"msg := newLazyError(f).Code().MetricsKey()": "let msg := errKey in"}},
+	{Func: "determinesCallSuccess", Out: "dcsFailMsg", Params: "(mt : Z) (resCode : Z) (errKey : list Z)", Ret: "list Z", RetIdx: 1,
+		Hints:  map[string]string{"f.messageType()": "mt", "isCallResOK(f)": "(isCallResOK resCode)"},
+		SHints: map[string]string{"msg := newLazyError(f).Code().MetricsKey()": "let msg := errKey in"}},
 }
